@@ -1,6 +1,6 @@
 (* C25 — proofs about the sendall model (Model/C25.v). *)
 From Coq Require Import ZArith List Bool Lia ZifyBool.
-From PV Require Import Bytes C25.
+From PV Require Import Bytes C25_gen C25.
 Import ListNotations.
 Open Scope Z_scope.
 
@@ -470,3 +470,11 @@ Proof.
     unfold wait_for_send_window, dead. rewrite Hc, He. cbn [orb Z.eqb skipn Z.to_nat tl].
     apply IH; auto; discriminate.
 Qed.
+
+(* the constants the model writes out are the ones in the source (Gen/C25_gen.v) *)
+Lemma source_constants :
+  MSG_CHANNEL_DATA = src_msg_channel_data /\
+  MSG_CHANNEL_EXTENDED_DATA = src_msg_channel_extended_data /\
+  take_window (mkChan false false 1000 (src_packet_overhead + 1) None) 1000
+    = WSize 1 (mkChan false false 999 (src_packet_overhead + 1) None).
+Proof. vm_compute. repeat split; reflexivity. Qed.
